@@ -3,10 +3,13 @@ package checks
 import (
 	"fmt"
 	"math/big"
+	"strconv"
 
 	"verifsim/engine"
+	"verifsim/ops"
 	"verifsim/oracle"
 	"verifsim/rollup"
+	"verifsim/service"
 	"verifsim/tape"
 
 	"worldcoin/gnark-mbu/poseidon_tree"
@@ -100,8 +103,61 @@ func toBig(xs []big.Int) []*big.Int {
 	return out
 }
 
+// cliGenParams: `gnark-mbu gen-test-params` for an enumerated (mode, depth, batch): the printed
+// parameters must describe a valid batch whose input hash is the contract's (hence provable).
+func (c *C08) cliGenParams(x *engine.Ctx) *engine.Violation {
+	i := int(x.Run)
+	mode := rollup.Insertion
+	if i%2 == 1 {
+		mode = rollup.Deletion
+	}
+	i /= 2
+	batch := 1 + i%6
+	depth := 1 + (i/6)%20
+	if mode == rollup.Insertion && (1<<uint(depth)) < batch || mode == rollup.Deletion && (1<<uint(depth)) < 2*batch {
+		depth += 4
+	}
+	r := ops.Run(ops.Cmd{Args: []string{"gen-test-params", "--mode", mode, "--tree-depth", strconv.Itoa(depth), "--batch-size", strconv.Itoa(batch)}})
+	x.S.Eval(1)
+	key := fmt.Sprintf("%s/d%d/b%d", mode, depth, batch)
+	body, one := oneJSONLine(r.Stdout)
+	x.Log.Addf("cli", "gen-test-params", "%s exit=%d", key, r.Exit)
+	if r.Exit != 0 || !one {
+		return engine.Violatef("C08/gen-test-params/fails", "%s: %s", key, ops.Describe(r))
+	}
+	pre, post := genParamsRoots(mode, depth, batch)
+	sp, sq := shortBytes(pre), shortBytes(post)
+	c.probe(x, sp, sq, 0)
+	if sp+sq > 0 {
+		x.S.Count("probe:cli_gen_test_params_with_short_root")
+	}
+	x.S.Seen(fmt.Sprintf("cli/%s/pre%d/post%d", key, sp, sq))
+	var valid bool
+	var why string
+	if mode == rollup.Insertion {
+		w, err := service.ParseInsertionDoc(body)
+		if err != nil {
+			return engine.Violatef("C08/gen-test-params/output-not-a-parameter-document", "%s: %v", key, err)
+		}
+		valid, why = oracle.InsertionValid(depth, w)
+	} else {
+		w, err := service.ParseDeletionDoc(body)
+		if err != nil {
+			return engine.Violatef("C08/gen-test-params/output-not-a-parameter-document", "%s: %v", key, err)
+		}
+		valid, why = oracle.DeletionValid(depth, w)
+	}
+	if !valid {
+		return engine.Violatef("C08/gen-test-params/output-not-provable/"+why+"/"+shortCause(sp, sq), "%s: `gnark-mbu gen-test-params` printed parameters that do not describe a provable batch (%s); pre-root %d bytes short, post-root %d bytes short", key, why, sp, sq)
+	}
+	return nil
+}
+
 func (c *C08) Run(x *engine.Ctx) *engine.Violation {
 	t := x.T
+	if x.Run < 240 && ops.Bin() != "" {
+		return c.cliGenParams(x) // enumerated CLI sweep: 2 modes x 6 batch sizes x 20 depths
+	}
 	x.S.Touch("probe:pre_root_short", "probe:post_root_short", "probe:both_roots_short", "probe:commitment_short")
 	mode := rollup.Insertion
 	if t.Chance(1, 2) {
